@@ -300,7 +300,7 @@ impl Property for C03 {
         ]
     }
     fn workloads(&self, tier: Tier) -> Vec<(String, u64)> {
-        vec![("real".into(), real_project_files().len() as u64), ("generated".into(), tier.pick(220, 5000))]
+        vec![("real".into(), real_project_files().len() as u64), ("generated".into(), tier.pick(660, 5000))]
     }
     fn required(&self, tier: Tier) -> Vec<(String, u64)> {
         vec![
